@@ -291,12 +291,13 @@ PROPS = {
     },
     "C19": {
         "props_module": "HdModel.Props.C19",
-        "class_prefix": ["C19/"],
+        "class_prefix": ["C19/", "C03/"],
         "theorems": ["Hd.Timeout.C19_result", "Hd.Timeout.C19_no_early_timeout", "Hd.Timeout.C19_inner_first",
                      "Hd.Timeout.C19_inner_unchanged"],
         "streams": [
             {"name": "to", "quick": 6000, "thorough": 200000, "sep": None, "head": 5, "unit": 1,
              "nontrivial": to_nontrivial, "distribution": to_dist},
+            dict(POOL_STREAM, quick=1500, thorough=50000),
         ],
         "rule": "durations {0,1,5,10,20,50} x inner completion (never, 0, d-1, d, d+1, random) x result ok/err x poll schedules "
                 "(executor polls at wake instants plus spurious polls; some inadequate/unsorted) on the public service::Timeout under "
